@@ -166,13 +166,13 @@ pub fn run(tier: Tier) -> i32 {
         run.stage("f32: all 256 exponent fields x both signs x significand alphabet", json!({"significands": fr.len()}));
     }
     // f64: all 2048 exponent fields x both signs x significand alphabet
-    let fr64 = frac_alphabet(52, if th { 14 } else { 9 }, th);
+    let fr64 = frac_alphabet(52, if th { 14 } else { 11 }, th);
     let exps: Vec<u64> = (0..2048).collect();
     run.par_for(&exps, || {}, |&be, l| { for s in [0u64, 1] { for &f in &fr64 { case64((s << 63) | (be << 52) | f, l); l.distinct += 1; } } });
     run.stage("f64: all 2048 exponent fields x both signs x significand alphabet", json!({"significands": fr64.len()}));
     // tie zone: t * 2^-19 for odd t (exact ties at the 18th digit: 2^-19 * 10^18 = 5^18/2) and neighbours one ulp either side
     let mut ts: Vec<u64> = Vec::new();
-    for t in 0..(if th { 4_000_000u64 } else { 60_000 }) { ts.push(2 * t + 1); }
+    for t in 0..(if th { 4_000_000u64 } else { 400_000 }) { ts.push(2 * t + 1); }
     for k in 20..=52u32 { for d in [1u64, 3, 5, 7, 9, 11] { ts.push((1u64 << k) + d); ts.push((1u64 << k).wrapping_sub(d)); if k < 52 { ts.push((1u64 << k) + (1u64 << (k / 2)) + d); } } }
     ts.retain(|t| *t < (1u64 << 53) && t % 2 == 1);
     ts.sort(); ts.dedup();
